@@ -93,6 +93,8 @@ class Ext:
             return a.t == b.t
         if isinstance(a, VFunc) or isinstance(b, VFunc):
             return z3.BoolVal(a is b)
+        if isinstance(a, VExc) and isinstance(b, VExc):
+            return ex.box(a) == ex.box(b)
         if isinstance(a, VCls) and isinstance(b, VCls):
             if a.py is not None and b.py is not None:
                 return z3.BoolVal(a.py is b.py)
